@@ -74,9 +74,22 @@ def convert_series_to_internal_type(
                 raise ValueError(basic_error_msg + " This conversion is not supported.")
             else:
                 try:
-                    out = out.astype(float)
+                    converted = out.astype(float)
                 except ValueError as e:
                     raise ValueError(basic_error_msg) from e
+                # Large integers have no exact floating point representation
+                if is_integer_dtype(out):
+                    with numpy.errstate(invalid="ignore"):
+                        is_lossless = numpy.array_equal(
+                            converted.to_numpy().astype(out.dtype), out.to_numpy()
+                        )
+                    if not is_lossless:
+                        raise ValueError(
+                            basic_error_msg + " This conversion is only supported if"
+                            " all values can be represented exactly as floating point"
+                            " numbers."
+                        )
+                out = converted
 
         # Conversion to int
         elif internal_type == int:
